@@ -1,6 +1,6 @@
 """C02 — write-ahead ordering premises of crash recovery (DESIGN.md 5/C02)."""
 from ..engine import *
-from ..analysis import term_str, strip, roots, subterms, contains, callee_of
+from ..analysis import term_str, strip, roots, subterms, contains, callee_of, term_sig
 from .names import *
 
 P = "C02"
@@ -27,6 +27,13 @@ def order_rule(ctx, prop, rule, fn_name, data_producer, optional_data):
     A = fn_name.split("::")[-1]
     d_sites = sites_with_arg_from(fa, FLUSH_INFO, 1, data_producer)
     e_sites = sites_with_arg_from(fa, FLUSH_INFOS, 1, APPEND_CS)
+    if not d_sites:
+        batched = sites_with_arg_from(fa, FLUSH_INFOS, 1, data_producer)
+        if batched:
+            ctx.fail(prop, rule, A + ": data write before entry write",
+                     "the data write built by %s is handed to the same flush_infos call as the oplog entry (%s): it is not a separately checked storage operation that has succeeded before the entry — the commit point — is written" % (
+                         data_producer, loc(fa, batched[0][0])), [site_desc(fa, batched[0][0])], key="%s|%s|%s|data write batched with the entry" % (prop, rule, fn_name))
+            return None
     if not need(ctx, prop, rule, A + ": flush_info(%s(..))" % data_producer, d_sites):
         return None
     if not need(ctx, prop, rule, A + ": flush_infos(append_changeset(..).infos_to_flush)", e_sites):
@@ -408,13 +415,73 @@ def r8b(ctx):
                       loc(fo, bb, si), [(w, term_str(x)[:90]) for w, x in srcs] or term_str(v)[:120]), [loc(fo, bb, si)], key="C02|C02.R8|Oplog::open|entries_byte_length excludes the last payload")
 
 
-RULES = [r1, r2, r3, r4, r5, r6, r7, r8, r8b]
+def r9(ctx, prop=P, rule="C02.R9"):
+    """writer/reader table of storage operations: what each StoreInfo constructor builds is what
+    Storage::flush_infos dispatches on — content -> write, delete -> del, truncate -> truncate —
+    and the infos that only reads produce are never built by code that feeds flush"""
+    from .c09 import dominating_conditions
+    fa = ctx.real_body(FLUSH_INFOS, [RA_WRITE])
+    if not need(ctx, prop, rule, FLUSH_INFOS, fa):
+        return
+    adt = ctx.crate.adts.get("common::store::StoreInfoType")
+    if not need(ctx, prop, rule, "enum StoreInfoType", adt):
+        return
+    tyidx = {v["name"]: i for i, v in enumerate(adt["variants"])}
+    guards = {}
+    for s in sites_any(fa, RA_MUT):
+        op = fa.blocks[s].term["callee"].split("::")[-1]
+        g = {}
+        for o, truth, _ in dominating_conditions(fa, s):
+            sg = term_sig(o)
+            if sg.endswith(".info_type)") and sg.startswith("disc("):
+                g["info_type"] = truth
+            elif sg.endswith(".miss"):
+                g["miss"] = bool(truth)
+            elif sg.endswith(".data)") and sg.startswith("disc("):
+                g["data"] = truth
+        guards[op] = (g, s)
+    want = {SI_CONTENT: "write", SI_DELETE: "del", SI_TRUNC: "truncate"}
+    for ctor, op in want.items():
+        fc = ctx.fn(ctor)
+        if not need(ctx, prop, rule, ctor, fc):
+            continue
+        rets = [t for _, _, t in ret_assigns(fc) if is_agg(t) and t[1].endswith("StoreInfo")]
+        if not need(ctx, prop, rule, "%s: StoreInfo { .. }" % ctor.split("::")[-1], rets):
+            continue
+        d = dict(rets[0][3])
+        built = {"info_type": tyidx.get(d["info_type"][2]) if is_agg(d["info_type"]) else None, "miss": bool(ev(ctx, d["miss"])), "data": 1 if is_agg(d["data"], "Some") else 0}
+        def sat(g):
+            return all(built.get(k) == v for k, v in g.items())
+        hit = [o for o, (g, _) in guards.items() if sat(g)]
+        ctx.check(prop, rule, "%s is dispatched to %s and to nothing else" % (ctor.split("::")[-1], op), hit == [op],
+                  "constructor fields %s satisfy exactly the guard of %s %s" % (built, op, guards.get(op, ({},))[0]),
+                  "StoreInfo::%s builds %s, which Storage::flush_infos dispatches to %s (expected %s): the storage operation issued is not the one the caller asked for" % (ctor.split("::")[-1], built, hit, op),
+                  key="%s|%s|%s|dispatch" % (prop, rule, ctor))
+        # operands
+        if op in guards:
+            s = guards[op][1]
+            a = [term_sig(fa.arg_origin(s, i)) for i in range(1, len(fa.blocks[s].term["args"]))]
+            okargs = a[0].endswith(".index") and (op == "truncate" or (op == "write" and a[1].endswith(".data)")) or (op == "del" and ".length" in a[1]))
+            ctx.check(prop, rule, "%s operates on the info's own index%s" % (op, {"write": " and data", "del": " and length", "truncate": ""}[op]), okargs, "arguments %s" % a, "%s is called with %s" % (op, a), [site_desc(fa, s)])
+        # index / length / data of the info are the constructor's arguments
+        okf = strip(d["index"]) == ("param", "index") and (ctor != SI_CONTENT or (strip(d["data"][3][0][1]) == ("param", "data") if is_agg(d["data"], "Some") else False)) and (ctor != SI_DELETE or (is_agg(d["length"], "Some") and strip(d["length"][3][0][1]) == ("param", "length")))
+        ctx.check(prop, rule, "%s stores its arguments" % ctor.split("::")[-1], okf, "index / data / length taken from the parameters", "%s builds %s" % (ctor, term_str(rets[0])[:160]))
+    # read-only infos are produced only by the read path
+    bad = []
+    for fa2 in ctx.all_fas():
+        for s in sites_any(fa2, (SI_MISS, SI_SIZE)):
+            if fn_of(fa2.body.name) != READ_INFOS_VEC:
+                bad.append(site_desc(fa2, s) + " in " + fa2.body.name)
+    ctx.check(prop, rule, "read-result infos (miss / size) are built only by the read path", not bad, "new_content_miss / new_size only in read_infos_to_vec", "read-result infos built elsewhere: %s" % bad, bad)
+
+
+RULES = [r1, r2, r3, r4, r5, r6, r7, r8, r8b, r9]
 
 EXPLANATION = ("C02 (crash recovers to before-or-after): decides the write-ahead ordering premises on the CFG of every mutating entry point — "
                "data write before oplog entry, entry write ?-checked before any in-memory commit, commits before the periodic flush (append R1, proof apply R2), "
                "drop entry before destructive delete (clear R3), bitfield -> tree -> header order of the flush (R4), header content before truncate and the "
                "three-info shape of a trace-clearing flush (R5), in-order one-mutation-per-info issue loop of Storage::flush_infos (R6), stale entries gated by "
-               "the header bit on open (R7) and the log tail offset restored on open (R8).")
+               "the header bit on open (R7) and the log tail offset restored on open, counting every accepted entry to the end of its payload (R8), and the StoreInfo constructor table agreeing with the dispatch of Storage::flush_infos (R9).")
 NOT_DECIDED = ("idempotence of replay over partially flushed bitfield/tree; correctness of the header-bit rotation table; atomicity of backend operations; "
                "which state a given crash point recovers to.")
 ASSUMPTIONS = ["each RandomAccess operation is atomic and persisted in issue order (stated by the property)", "MIR built by rustc reflects the source semantics"]
